@@ -133,6 +133,10 @@ def gen_script(rng, kind, side):
         elif r < 88:
             ops.append(['wait'] if side == 'c' else
                        ['exit', rng.below(3)])
+        elif r < 90 and side == 'c' and kind == 'cb':
+            # an odd client: it asks for a shell on a channel whose session
+            # is running already (only one such request can succeed)
+            ops.append(['reshell'])
         elif kind == 'proc':
             ops.append([rng.choice(['drain', 'read', 'readline'])])
         else:
@@ -565,6 +569,15 @@ class Run:
                 elif k == 'pause':
                     chan.pause_reading()
                     sim.probes['reading_paused'] += 1
+                elif k == 'reshell':
+                    cconn, num = getattr(chan, '_conn', None), \
+                        getattr(chan, '_send_chan', None)
+
+                    if cconn is not None and num is not None:
+                        from simkit.sshwire import u32, string, boolean
+                        sim.probes['second_shell_request'] += 1
+                        cconn.send_packet(98, u32(num), string(b'shell'),
+                                          boolean(False))
                 elif k == 'wait':
                     await chan.wait_closed()
                 elif k == 'exit':
@@ -913,6 +926,11 @@ def check_grammar(world, name, log):
                 world.violation('callback-order', '%s: %r after %r (log %r)'
                                 % (name, ev, prev, log), sig='%s>%s' %
                                 (prev, ev))
+            return
+
+        if ev == 'started' and 'started' in log[:i]:
+            world.violation('callback-order', '%s: session_started called '
+                            'twice (%r)' % (name, log), sig='started-twice')
             return
 
         if ev == 'eof':
